@@ -27,6 +27,8 @@ fn Entry(name: &str, prop: &'static str, what: &str, quick_bound: i64, thorough_
 pub fn catalogue() -> Vec<Entry> {
     let mut v = fixed();
     v.extend(generated_programs());
+    v.extend(generated_wake_programs());
+    v.extend(generated_drop_programs());
     v
 }
 
@@ -536,6 +538,188 @@ fn generated_programs() -> Vec<Entry> {
                     thorough_only: true,
                 });
             }
+        }
+    }
+    v
+}
+
+// ---------------------------------------------------------------- C02, generated
+
+#[derive(Clone, Copy, Debug, PartialEq, Eq)]
+enum WOp {
+    /// set(next value)
+    Set,
+    /// update(|v| *v += 1)
+    Update,
+    /// set_if_not_eq(current value): must not notify
+    SineSame,
+    /// write guard: set(next), set(next)
+    Guard2,
+}
+
+const WOPS: [WOp; 4] = [WOp::Set, WOp::Update, WOp::SineSame, WOp::Guard2];
+
+/// `nsubs` subscriber threads loop on next() until the end; the main thread
+/// runs `ops` and then drops the only owner. A lost wake-up is a deadlock.
+fn wake_program(ops: Vec<WOp>, nsubs: usize) {
+    let ob = SharedObservable::new(0u32);
+    let mut handles = Vec::new();
+    for _ in 0..nsubs {
+        let mut sub = ob.subscribe();
+        handles.push(thread::spawn(move || {
+            let mut seen = Vec::new();
+            while let Some(v) = block_on(sub.next()) {
+                seen.push(v);
+            }
+            let last = sub.get();
+            (seen, last)
+        }));
+    }
+    let mut cur = 0u32;
+    for op in &ops {
+        match op {
+            WOp::Set => {
+                cur += 1;
+                ob.set(cur);
+            }
+            WOp::Update => {
+                cur += 1;
+                ob.update(|v| *v += 1);
+            }
+            WOp::SineSame => {
+                let r = ob.set_if_not_eq(cur);
+                vassert(r.is_none(), || format!("wake program {ops:?}: set_if_not_eq(current) returned {r:?}"));
+            }
+            WOp::Guard2 => {
+                let mut g = ob.write();
+                cur += 1;
+                ObservableWriteGuard::set(&mut g, cur);
+                cur += 1;
+                ObservableWriteGuard::set(&mut g, cur);
+            }
+        }
+    }
+    drop(ob);
+    let mut outs = Vec::new();
+    for h in handles {
+        let (seen, last) = h.join().unwrap();
+        vassert(seen.windows(2).all(|w| w[0] < w[1]) && seen.iter().all(|v| *v >= 1 && *v <= cur), || format!("wake program {ops:?}: a subscriber saw {seen:?} (final value {cur})"));
+        vassert(last == cur, || format!("wake program {ops:?}: after the end get() returned {last}, final value {cur}"));
+        outs.push(format!("{seen:?}"));
+    }
+    outs.sort();
+    outcome(outs.join(" "));
+}
+
+fn generated_wake_programs() -> Vec<Entry> {
+    let mut v = Vec::new();
+    let mut seqs: Vec<Vec<WOp>> = Vec::new();
+    for a in WOPS {
+        seqs.push(vec![a]);
+        for b in WOPS {
+            seqs.push(vec![a, b]);
+        }
+    }
+    for ops in seqs {
+        for nsubs in [1usize, 2] {
+            let two = nsubs == 2;
+            let name = format!("WP{nsubs}:{}", ops.iter().map(|o| format!("{o:?}")).collect::<Vec<_>>().join(","));
+            let ops2 = ops.clone();
+            v.push(Entry {
+                name,
+                prop: "C02",
+                what: format!("generated: {nsubs} subscriber thread(s) looping on next() || main: {ops:?}; drop"),
+                quick_bound: if two { 2 } else { 3 },
+                thorough_bound: if two { 3 } else { -1 },
+                min_outcomes: 1,
+                body: Box::new(move || wake_program(ops2.clone(), nsubs)),
+                thorough_only: two && ops.len() == 2,
+            });
+        }
+    }
+    v
+}
+
+// ---------------------------------------------------------------- C03, generated
+
+#[derive(Clone, Copy, Debug, PartialEq, Eq)]
+enum HOp {
+    Drop,
+    /// clone, then drop both
+    CloneDropBoth,
+    /// downgrade, drop the handle, then try to upgrade (and drop the result)
+    DowngradeDropUpgrade,
+    /// subscribe and drop the subscriber, then drop the handle
+    SubscribeDrop,
+}
+
+const HOPS: [HOp; 4] = [HOp::Drop, HOp::CloneDropBoth, HOp::DowngradeDropUpgrade, HOp::SubscribeDrop];
+
+fn run_hop(h: SharedObservable<u32>, op: HOp) -> bool {
+    match op {
+        HOp::Drop => {
+            drop(h);
+            false
+        }
+        HOp::CloneDropBoth => {
+            let c = h.clone();
+            drop(h);
+            drop(c);
+            false
+        }
+        HOp::DowngradeDropUpgrade => {
+            let w = h.downgrade();
+            drop(h);
+            let up = w.upgrade();
+            let got = up.is_some();
+            drop(up);
+            got
+        }
+        HOp::SubscribeDrop => {
+            let s = h.subscribe();
+            drop(s);
+            drop(h);
+            false
+        }
+    }
+}
+
+/// Two threads each own one handle and get rid of it in their own way; a third
+/// thread is blocked in next(). Afterwards no owner is left: every stream must
+/// have ended, whatever the interleaving.
+fn drop_program(a: HOp, b: HOp) {
+    let ha = SharedObservable::new(0u32);
+    let hb = ha.clone();
+    let mut s1 = ha.subscribe();
+    let mut s2 = ha.subscribe();
+    let ta = thread::spawn(move || run_hop(ha, a));
+    let tb = thread::spawn(move || run_hop(hb, b));
+    let tc = thread::spawn(move || block_on(s2.next()));
+    let ua = ta.join().unwrap();
+    let ub = tb.join().unwrap();
+    let p = poll_once(s1.next());
+    vassert(matches!(p, Poll::Ready(None)), || format!("drop program {a:?} || {b:?}: every owner is gone but next() answers {p:?}"));
+    let v = tc.join().unwrap();
+    vassert(v.is_none(), || format!("drop program {a:?} || {b:?}: the blocked subscriber got {v:?}"));
+    outcome(format!("upgraded=({ua},{ub})"));
+}
+
+fn generated_drop_programs() -> Vec<Entry> {
+    let mut v = Vec::new();
+    for (i, a) in HOPS.iter().enumerate() {
+        for b in &HOPS[i..] {
+            let (a, b) = (*a, *b);
+            v.push(Entry {
+                name: format!("DP:{a:?}|{b:?}"),
+                prop: "C03",
+                what: format!("generated: thread A {a:?} || thread B {b:?} || a subscriber blocked in next(); afterwards every stream has ended"),
+                quick_bound: 2,
+                thorough_bound: 3,
+                min_outcomes: 1,
+                body: Box::new(move || drop_program(a, b)),
+                // the two-upgrades program has ~6*10^4 schedules at bound 2
+                thorough_only: a == HOp::DowngradeDropUpgrade && b == HOp::DowngradeDropUpgrade,
+            });
         }
     }
     v
